@@ -1,12 +1,22 @@
 """C01 - derivatives = stoichiometry x fluxes over fully resolved values.
 
-Deductive part (contracts/model_eval.py): the component records' calculate /
-calculate_inpl and Model.__call__ (both accumulation loops with ghost-sum invariants,
-result in declaration order) are proved for all models and states against the contract
-of _get_args; bounded part (bounded/C01.py): every entry point against an independent
-evaluator on enumerated models."""
+Deductive part:
+  * contracts/model_records.py: the component records' calculate / calculate_inpl;
+  * contracts/model_eval.py: Model.__call__ (both accumulation loops with ghost-sum
+    invariants, result in declaration order) and Model._get_right_hand_side, for all
+    models and states, against an assumed shape contract of _get_args;
+  * contracts/model_args.py (second contract view of the same function): Model._get_args
+    is proved to return a table that satisfies the model's equations - every dynamic
+    component has the value its function gives on the returned table, parameters /
+    variables / time keep the supplied values - for models without surrogates whose
+    cache lists the dynamic components in a valid order (OrderOK, which
+    _sort_dependencies is proved to deliver, contracts/model_sort.py).
+Bounded part (bounded/C01.py): every entry point against an independent evaluator on
+enumerated models (covers surrogates, _create_cache and the pandas entry points)."""
 from props._runner import run
 
 if __name__ == "__main__":
-    run("C01", "proof", files=["model_eval.py"],
-        notes="C01: __call__ and calculate* proved; _get_args/_create_cache contracts assumed here (C13) and exercised by the bounded stand-in")
+    run("C01", "proof", files=["model_records.py", "model_eval.py"],
+        more_sessions=[(["model_records.py", "model_args.py"], ["mxlpy.model:Model._get_args"])],
+        notes="C01: __call__, _get_right_hand_side, calculate* and the equations of _get_args (surrogate-free, valid order) proved; "
+              "that _create_cache establishes the order/shape preconditions is assumed here (C13) and exercised by the bounded stand-in")
